@@ -35,12 +35,33 @@ def load_modules():
     return mods
 
 
+FUNCTION_BUDGET_S = int(os.environ.get("PYVC_FUNCTION_BUDGET_S", "900" if os.environ.get("VERIF_TIER") == "thorough" else "240"))
+
+
+class _Budget(Exception):
+    pass
+
+
+def _alarm(signum, frame):
+    raise _Budget()
+
+
 def _verify_key(key):
+    import signal
+
     if key.startswith("lemma:"):
         return api.LEMMAS[key[6:]].verify()
     c = api.REGISTRY[key]
     try:
-        rep = api.verify(c)
+        signal.signal(signal.SIGALRM, _alarm)
+        signal.alarm(FUNCTION_BUDGET_S)
+        try:
+            rep = api.verify(c)
+        finally:
+            signal.alarm(0)
+    except _Budget:
+        rep = api.FunctionReport(c, None)
+        rep.status, rep.out_of_reach = "out-of-reach", f"wall-clock budget of {FUNCTION_BUDGET_S}s per function exceeded"
     except Exception as e:  # checker crash
         rep = api.FunctionReport(c, None)
         rep.status, rep.error = "error", traceback.format_exc()[-800:]
